@@ -29,6 +29,64 @@ type scratch struct {
 	v1, v2, v3 view.Vec
 	buf        []byte
 	cuts       []int
+	iso        [2][]byte
+	ex         [exactTable][]byte
+}
+
+// ---- private copies of the bytes handed to a call ----
+//
+// A caller that receives a stream grows its buffer with append(), so consecutive calls on one
+// object see the old data + new data on DIFFERENT backing arrays, and whatever lies in the
+// slack between len and cap is none of the parser's business. The drivers therefore never hand
+// the library a sub-slice of the case's full buffer (where the "slack" would be the true
+// continuation and a stale reference to an older buffer would still read the right bytes):
+//   - isoPrefix: a copy on one of two alternating arenas, with hostile slack after len
+//     (bytes that continue numbers, addresses, quoted strings and line ends differently from
+//     any real continuation). Peeking past len or holding on to the previous call's buffer
+//     changes what the object reports.
+//   - exactPrefix: a copy whose capacity equals its length, so that re-slicing past len panics.
+const exactTable = 1024
+
+var isoPoison = []byte("9.9.9.9\";=,<>\\:@ \t\r\n\r\n123456789")
+
+func (s *scratch) isoPrefix(pre []byte, k int) []byte {
+	a := &s.iso[k&1]
+	need := len(pre) + len(isoPoison)
+	if cap(*a) < need {
+		*a = make([]byte, need*2)
+	}
+	b := (*a)[:need]
+	copy(b, pre)
+	copy(b[len(pre):], isoPoison)
+	return b[:len(pre)]
+}
+
+func (s *scratch) exactPrefix(pre []byte) []byte {
+	n := len(pre)
+	if n >= exactTable {
+		b := make([]byte, n)
+		copy(b, pre)
+		return b
+	}
+	if s.ex[n] == nil {
+		s.ex[n] = make([]byte, n)
+	}
+	copy(s.ex[n], pre)
+	return s.ex[n]
+}
+
+// isoCopy / exactCopy: allocating variants for drivers without a worker scratch.
+func isoCopy(pre []byte) []byte {
+	b := make([]byte, len(pre)+len(isoPoison))
+	copy(b, pre)
+	copy(b[len(pre):], isoPoison)
+	return b[:len(pre)]
+}
+
+func exactCopy(pre []byte) []byte {
+	b := make([]byte, len(pre))
+	copy(b, pre)
+	return b
 }
 
 func sc(w *core.Worker) *scratch {
@@ -111,10 +169,11 @@ func CheckResume(w *core.Worker, c *Case, cuts []int, op view.MsgOpt) (res Resum
 		if cut < c.Start {
 			continue
 		}
-		pre := c.Buf[:cut]
-		n, e, pan, stk := safeCall(R, pre, o)
+		// the resumed object sees every prefix on another backing array with hostile slack, the
+		// fresh one an exact-capacity copy
+		n, e, pan, stk := safeCall(R, s.isoPrefix(c.Buf[:cut], ci), o)
 		F := c.P.New(c.Cfg)
-		nf, ef, panf, _ := safeCall(F, pre, c.Start)
+		nf, ef, panf, _ := safeCall(F, s.exactPrefix(c.Buf[:cut]), c.Start)
 		w.Eval(1)
 		if pan != "" || panf != "" {
 			if pan != "" && panf != "" {
